@@ -82,6 +82,11 @@ def judgeLine (line : String) : String :=
                 else s!"DIFF {cls} model-text-differs want={String.ofList mt} got={String.ofList txt}"
               | .error _ => s!"DIFF {cls} model-errs-impl-encodes"
       | _ => s!"SPEC {cls} encoder-{" ".intercalate res}"
+  | ["num", t] =>
+    -- cross-validation of the spec-side decimal conversion against strconv.ParseFloat
+    let mine := match Dec.toBits t.toList with | some b => "ok " ++ u64Hex b | none => "err"
+    let theirs := " ".intercalate (rhs.takeWhile (· ≠ "|"))
+    if mine == theirs then "OK numconv" else s!"DIFF numconv driver={mine} strconv={theirs}"
   | "skip" :: _ => "OK skipped"
   | _ => "BAD line"
 
